@@ -178,6 +178,16 @@ func runC16(c *Ctx) {
 							return "", fail("FlipInt", "result", "FlipInt(b,%d,%d) differs from Flip", a, e)
 						}
 					}
+					// an in-place write into every chunk of the result (one value removed, one added), then everything
+					// removed: b - and, for the no-copy corpus states, the caller's bytes behind b - must not notice
+					for _, k := range want.Keys() {
+						if x, ok := firstPresent(want, k); ok {
+							r.Remove(x)
+						}
+						if x, ok := firstAbsent(want, k); ok {
+							r.Add(x)
+						}
+					}
 					r.Add(12345)
 					r.RemoveRange(0, 1<<32)
 					if got := extract.Of(src.B); !got.Equal(src.M) {
